@@ -44,6 +44,22 @@ func runC28(p *Prog, r *Result) {
 			checkConstIndexes(p, r, pk, rel, "R28j", c28IndexExceptions)
 		}
 	}
+	r.Rule("R28k", "an integer from the program is known to be non-negative wherever it is passed to a helper that indexes with that parameter without testing it against zero (preconditions derived from the callee by a sign dataflow)", 3)
+	checkIndexPreconditions(p, r, "R28k", []string{"interp", "expand", "internal", "pattern"})
+	r.Rule("R28l", "a map taken from maps.Clone (nil for a nil map) is written only after a nil test or after it was replaced by a fresh map", 2)
+	for _, rel := range []string{"interp", "expand"} {
+		if pk := p.Pkg(rel); pk != nil {
+			checkClonedMapWrites(p, r, pk, rel, "R28l")
+		}
+	}
+	r.Rule("R28m", "inside a loop bounded by i < len(X), the loop variable indexes only X", 5)
+	for _, rel := range []string{"interp", "expand", "pattern", "internal"} {
+		if pk := p.Pkg(rel); pk != nil {
+			checkLoopBoundMatchesIndexed(p, r, pk, rel, "R28m")
+		}
+	}
+	r.Rule("R28n", "pattern.Regexp never writes the lexer's end-of-pattern sentinel into the regular expression that expand and interp hand to regexp.MustCompile", 6)
+	checkPatternSentinelWrites(p, r, "R28n")
 	r.Rule("R28h", "a variable's List is replaced only together with its Indexes (a sparse array's index list must stay parallel to its values, or lookups index past it)", 4)
 	r.Rule("R28d", "indexes taken from state that survives a call are guarded against the length of what they index", 2)
 
@@ -1982,6 +1998,16 @@ func boundsKind(info *types.Info, e *FEdge, o types.Object) string {
 	}
 	switch op {
 	case token.GEQ, token.GTR:
+		// a comparison with a negative constant does not rule out negative values
+		other := be.Y
+		if right {
+			other = be.X
+		}
+		if tv, ok := info.Types[other]; ok && tv.Value != nil {
+			if v, exact := constant.Int64Val(constant.ToInt(tv.Value)); exact && (v < -1 || (v == -1 && op == token.GEQ)) {
+				return ""
+			}
+		}
 		return "lower"
 	case token.LSS, token.LEQ:
 		return "upper"
@@ -2377,6 +2403,14 @@ var c28Controls = []Control{
 		Mutate: ctlReplaceAnywhere("\t\tif es == 0 {\n\t\t\treturn // an odd way for a handler to report success\n\t\t}\n", "")},
 	{Name: "signed-shift-count", Rule: "R28e", WantKey: "binArit#x << y", File: "expand/arith.go",
 		Mutate: ctlReplace("binArit", "x << uint(y)", "x << y", 0)},
+	{Name: "negative-subscript-not-rejected", Rule: "R28k", WantKey: "setVarWithIndex#k passed to SetIndexedElem", File: "interp/vars.go",
+		Mutate: ctlReplaceAnywhere("\t\tif k += internal.IndexedMax(list, indexes) + 1; k < 0 {\n\t\t\tr.errf(\"%s: bad array subscript\\n\", name)\n\t\t\tr.exit.code = 1\n\t\t\treturn\n\t\t}\n", "\t\tk += internal.IndexedMax(list, indexes) + 1\n")},
+	{Name: "cloned-map-written-without-nil-test", Rule: "R28l", WantKey: "setVarWithIndex#stores into prev.Map", File: "interp/vars.go",
+		Mutate: ctlReplaceAnywhere("\t\tprev.Map = maps.Clone(prev.Map)\n\t\tif prev.Map == nil {\n\t\t\tprev.Map = make(map[string]string)\n\t\t}\n", "\t\tprev.Map = maps.Clone(prev.Map)\n")},
+	{Name: "alias-loop-bounded-by-the-original-words", Rule: "R28m", WantKey: "cmd#loop bounded by len(cm.Args) indexes args[i]", File: "interp/runner.go",
+		Mutate: ctlReplaceAnywhere("\t\tfor i := 0; i < len(args); {\n\t\t\tif !r.opts[optExpandAliases] {", "\t\tfor i := 0; i < len(cm.Args); {\n\t\t\tif !r.opts[optExpandAliases] {")},
+	{Name: "unclosed-extglob-writes-the-sentinel", Rule: "R28n", WantKey: "regexpNext#writes sl.next()", File: "pattern/pattern.go",
+		Mutate: ctlReplaceAnywhere("\t\t\tif sl.peekNext() != ')' {\n\t\t\t\t// Like Bash, an unmatched \"(\" makes the operator a literal;", "\t\t\tif false {\n\t\t\t\t// Like Bash, an unmatched \"(\" makes the operator a literal;")},
 	{Name: "shift-accepts-negative-count", Rule: "R28c", WantKey: "builtin#slice r.Params", File: "interp/builtin.go",
 		Mutate: ctlReplace("Runner.builtin", "err == nil && n2 >= 0", "err == nil", 0)},
 	{Name: "classic-test-complex-left-operand", Rule: "R28a", WantKey: "bashTest#x.X", File: "interp/test_classic.go",
